@@ -133,6 +133,10 @@ def run(ctx):
         fr = _recorded_from(f, 1)
         oki = len(ins) == 1 and len(fr) == 1 and _own(sym_str(arg_syms(ins[0])[1]))
         chk.ob("C17.a", f"{f.path} [own fields stored]", oki, "labels = from_record(attrs.values()) stored in the span's extensions" if oki else "the span's own fields are not recorded into its extensions", f.loc(), nontrivial=False)
+    # the layer observes every span: it does not take part in callsite / span filtering (a `never` interest from one layer
+    # disables the callsite for the whole stack — such spans are not created at all and their ancestry is lost)
+    hooks = sorted({f.name for f in t.fns if f.j.get("impl_self", "").endswith("MetricsLayer") and (f.j.get("impl_trait") or "").split("<")[0].endswith("Layer") and f.name in ("register_callsite", "enabled", "event_enabled", "max_level_hint")})
+    chk.ob("C17.a", "MetricsLayer [no filtering hooks]", not hooks, "the Layer impl defines none of register_callsite / enabled / event_enabled / max_level_hint" if not hooks else f"MetricsLayer overrides {hooks}: the layer can switch spans off for every layer of the subscriber, so fields of (and inherited through) those spans never reach the metrics", "metrics-tracing-context/src/tracing_integration.rs", nontrivial=False)
     onr = [f for f in t.fns if f.name == "on_record" and f.j.get("impl_self", "").endswith("MetricsLayer")]
     if len(onr) == 1:
         f = onr[0]
@@ -171,6 +175,12 @@ def run(ctx):
                 # the value reaches the formatter unchanged (no cast), at its own type or through a generic helper
                 ok = ok and len(fm) == 1 and (ty in ga or not concrete) and is_param(arg_syms(fm[0])[1], 2)
                 detail = f"formatted as {fm[0].t.get('gargs') if fm else None}"
+        if ok and ins[0].fn is f:
+            # ... for every value: no path through the visitor returns without the insert (an empty string is a value too —
+            # skipping it lets an outer span's or an earlier value show through)
+            skip_ = [r for r in f.body.return_blocks() if r in f.body.reachable(0, cut={ins[0].bb})]
+            if skip_:
+                ok, detail = False, "a path returns without inserting (some values are dropped, e.g. an empty string)"
         chk.ob("C17.a", f.path, ok, f"{mn}: insert(field.name(), value{' formatted as ' + ty if ty else ''})" if ok else f"{mn} does not insert the value under field.name() formatted at its own type ({detail}): e.g. a u64 above i64::MAX would be rendered negative", f.loc())
 
     # ---------------- C17.b
@@ -223,6 +233,20 @@ def run(ctx):
         wl = [c for c in calls if c.is_("MetricsLayer::with_labels")]
         ok5 = len(wl) == 1 and "id" in sym_str(Sym(wl[0].fn).operand(wl[0].args[2]))
         chk.ob("C17.b", f"{ek.path} [labels of the current span]", ok5, "labels are read from the dispatcher's current span id" if ok5 else "labels are not read for the current span id", ek.loc(), nontrivial=False)
+
+    # the labels handed to the key builder are read from the span's extensions in this very call: inside with_labels the callback
+    # is invoked only from the closure given to the registry lookup, never directly with a map kept from an earlier call
+    wlf = (t.method("MetricsLayer", "with_labels") or [None])[0]
+    if wlf is not None:
+        direct = []
+        for g_ in wlf.region():
+            gs = Sym(g_)
+            for c in g_.body.calls():
+                if c.is_("FnMut::call_mut", "Fn::call", "FnOnce::call_once") and c.args:
+                    tgt = strip_sym(gs.operand(c.args[0]))
+                    if g_ is wlf and sym_arg(tgt) is not None and sym_arg(tgt)[0] == 3:
+                        direct.append(c)
+        chk.ob("C17.b", f"{wlf.path} [labels read per call]", not direct, "the key-building callback is reached only through the span lookup" if not direct else "with_labels can invoke the callback directly, with labels that were not read from the span's extensions in this call (a cache): a record() made on another thread in between is not seen", direct[0].loc() if direct else wlf.loc(), nontrivial=False)
 
     # ---------------- C17.c
     impls = recorder_impls(t)
